@@ -19,7 +19,7 @@ reg("C18", "exhaustive enumeration + rapidcheck (src/c18.cc)", "exploration",
     "specification: refusal iff a '..' component, exact result, no growth, idempotence, shape, guard bytes; "
     "is_filename_sane compared with its specification on every string. Complete for the enumerated space, sampled beyond. A second layer "
     "(Hypothesis) checks the funnel: tar member names and hard link targets, --exclude-dir, pack file paths, link targets and glob targets, "
-    "sort file names (also inside quotation marks), rdsquashfs path arguments (-c -l -s -x), sqfs2tar -r/-d - any spelling must behave like the canonical one, '..' must be refused.",
+    "sort file names (also inside quotation marks), tar2sqfs --root-becomes with names and link targets below the new root, rdsquashfs path arguments (-c -l -s -x), sqfs2tar -r/-d - any spelling must behave like the canonical one, '..' must be refused.",
     "Trusts the 25-line specification in src/c18.cc, clang ASan/UBSan, and that the five-letter alphabet covers the "
     "character classes the code distinguishes ('/', '.', other).", "DESIGN.md 4/C18")
 
@@ -64,8 +64,8 @@ reg("C15", "Hypothesis -> reference compressors -> tar2sqfs / sqfs2tar -c (asan)
 reg("C16", "Hypothesis -> gensquashfs --pack-dir -> rdsquashfs -d/-u -> gensquashfs -F (asan) -> independent parser", "exploration",
     "round trip (describe -> unpack -> repack) compared through an independent parser",
     "Trees whose names, symlink targets and unpack roots carry every quoting-relevant byte (space, tab, CR, VT, FF, quote, backslash, '#', leading '-', "
-    "high bytes) in first/middle/last position, with a root directory that has permissions and an owner of its own, are packed without the pack-file parser, described (with and without --unpack-root, absolute "
-    "and relative), unpacked and re-packed from the listing; the independent parser must see the same paths, types, modes, owners, targets, "
+    "high bytes) in first/middle/last position, with a root directory that has permissions and an owner of its own, are packed without the pack-file parser, described (with and without --unpack-root, absolute, "
+    "relative, and relative climbing out through '..'), unpacked and re-packed from the listing; the independent parser must see the same paths, types, modes, owners, targets, "
     "device numbers and contents.", "Trusts lib/sqfsimg.py; newline is excluded as the statement says; hard-link groups and time stamps are not compared.",
     "DESIGN.md 4/C16")
 
@@ -113,7 +113,7 @@ reg("C02", "Hypothesis inputs x (-j, -Q, -X, schedule perturbation shim, environ
     "differential against the NO_THREAD_IMPL serial build + metamorphic over -j/-Q/schedule perturbation/environment; TSan on a sample; "
     "schedule enumeration (0 and 1 preemptions) of the block processor on the controlled scheduler with a read-back + digest oracle",
     "Inputs with many data and fragment blocks are packed by gensquashfs / tar2sqfs with -j 1..64 and default, -Q 1..10^4, seeded yields and "
-    "sleeps around every mutex/condvar operation of the worker pool (LD_PRELOAD), different TZ/locale/umask/HOME/cwd and a fake wall clock; "
+    "sleeps around every mutex/condvar operation of the worker pool (LD_PRELOAD), different TZ/locale/umask/HOME/cwd and a fake wall clock (half of the pack-file and tar inputs put files below directories the input never declares); "
     "every image must equal the serial build's image byte for byte; one ThreadSanitizer run per case must be free of race reports.",
     "Real-thread perturbation samples interleavings; the controlled scheduler enumerates them for small block processor programs at the "
     "granularity of the pool's mutex/condvar operations. The command line is an input, and so is SOURCE_DATE_EPOCH unless --defaults mtime= is "
@@ -170,7 +170,8 @@ reg("C09", "controlled scheduler (src/vsched.cc) under the unmodified threadpool
     "controlled pool (1-3 workers, backlog 2-8, preemption-bounded DFS): every call returns, every file reads back, and a compressor that fails in "
     "a worker on the first / last block or the tail of any one file must make some call of the submitter fail. Model-based sequences "
     "(src/c09_model.c, ASan): generated submit/dequeue/get_status programs over 1-20 items with partial drains and failing items run on the "
-    "serial reference pool and the pthread pool (1-4 workers) and are compared call by call with a FIFO model; failures shrink by deleting operations.",
+    "serial reference pool and the pthread pool (1-4 workers) and are compared call by call with a FIFO model; failures shrink by deleting operations; a LeakSanitizer report at exit (a work item nobody owns) "
+    "is traced to one program by bisection.",
     "Sequentially consistent interleavings at mutex/condvar granularity; block processor programs are bounded by an execution cap per "
     "configuration, not enumerated completely.", "DESIGN.md 4/C09, 8.3")
 
@@ -182,7 +183,8 @@ reg("C10", "Hypothesis operation histories -> src/c10_hist.c (ASan): long-lived 
     "field-damaged variants, and directed ones (two files stored once with the second inode's block word altered, an unloadable fragment "
     "block, NUL bytes inside names, destroyed compressed bytes). Stream, positional and per-block file access must agree on readable files; a "
     "stream read repeated after a failure must not deliver data; paths are passed in allocations of their exact size. The low-level readdir "
-    "interface runs on one cursor object per reader set that is re-initialised after partial listings and continued after other operations.",
+    "interface runs on one cursor object per reader set that is re-initialised after partial listings and continued after other operations, "
+    "and on two cursors that share one meta reader and are read alternately (fresh set: one after the other).",
     "Directory readers use flags 0 (DOT_ENTRIES caching is documented as history dependent); digests are FNV-1a over payloads.", "DESIGN.md 4/C10")
 
 reg("C19", "Hypothesis programs -> src/c19_copy.c (ASan): copy vs twin with the same history, both release orders", "exploration",
@@ -193,7 +195,8 @@ reg("C19", "Hypothesis programs -> src/c19_copy.c (ASan): copy vs twin with the 
     "writer copies (sets before / only on the original / after; flushed bytes compared with a twin writer) are covered by dedicated operations, "
     "as are options read from an image before a compressor is copied and copies that fail at their k-th allocation (reader set, xattr writer) "
     "or for lack of file descriptors: the original is then compared with a twin. Cursors that are continued after the copy (low-level readdir "
-    "cursor, sequential meta reader reads without a seek) must stand where the original stood.",
+    "cursor, sequential meta reader reads without a seek) must stand where the original stood, and releasing each object of the copied set must "
+    "run its destroy hook exactly once.",
     "Images from the C10 pool; leak detection is off (the property speaks about crashes and state, leaks of the harness itself would be noise).",
     "DESIGN.md 4/C19")
 
